@@ -26,11 +26,12 @@ func spellings(r *gen.R) []ref.PrintOpts {
 func init() {
 	Register(&Property{
 		ID:            "C01",
-		Rule:          "core-language expressions (selector-chain grid over fixed documents; index and slice literals at the 8/16/32/64-bit boundaries over arrays of 1..300 elements in every position an index can take: after a field, after a pipe, on the current node, after a parenthesis, inside projections and filters; seeded document-directed random ASTs rendered in two spellings) evaluated by Search and Compile+Search and compared with the independent reference model; a case is non-trivial when the model decides it and its outcome is a non-null, non-empty value or an error; distinct by (expression text, document)",
+		Rule:          "core-language expressions (selector-chain grid over fixed documents; every comparison operator between all pairs of a 44-value pool of integers and decimals at the 2^31/2^32/2^53/2^63/2^64/10^19 boundaries (as filters, multi-selects and literals); index and slice literals at the 8/16/32/64-bit boundaries over arrays of 1..300 elements in every position an index can take: after a field, after a pipe, on the current node, after a parenthesis, inside projections and filters; seeded document-directed random ASTs rendered in two spellings) evaluated by Search and Compile+Search and compared with the independent reference model; a case is non-trivial when the model decides it and its outcome is a non-null, non-empty value or an error; distinct by (expression text, document)",
 		MinNontrivial: 200,
 		Streams: []Stream{
 			{Name: "random", N: func(c *Ctx) int { return tierN(c, 30000, 3000000) }, Run: c01Random},
 			{Name: "grid", N: c01GridN, Run: c01Grid, Exhaustive: true},
+			{Name: "number-boundaries", N: func(c *Ctx) int { return len(c01NumB) }, Run: c01NumberBoundaries, Exhaustive: true},
 			{Name: "index-boundaries", N: func(c *Ctx) int { return len(c01IdxLens) * len(c01IdxLits) }, Run: c01IndexBoundaries, Exhaustive: true},
 		},
 	})
@@ -89,5 +90,38 @@ func c01IndexBoundaries(c *Ctx, idx int) {
 		if IsNontrivialOutcome(m) {
 			c.Nontrivial(f, fmt.Sprint(n))
 		}
+	}
+}
+
+// numbers at the boundaries of the machine types a fast path might use
+var c01NumB = []string{"0", "1", "-1", "2", "2147483647", "2147483648", "-2147483648", "-2147483649", "4294967295", "4294967296", "3037000499", "3037000500", "4000000000", "9007199254740991", "9007199254740992", "9007199254740993", "-9007199254740993",
+	"999999999999999999", "1000000000000000000", "9223372036854775806", "9223372036854775807", "9223372036854775808", "9223372036854775809", "-9223372036854775807", "-9223372036854775808", "-9223372036854775809", "9999999999999999999", "10000000000000000000", "-9999999999999999999",
+	"18446744073709551614", "18446744073709551615", "18446744073709551616", "18446744073709551617", "-18446744073709551616", "-8446744073709551617", "-8446744073709551616", "99999999999999999999", "0.5", "-0.5", "9223372036854775807.5", "9223372036854775808.0", "9.223372036854775808e18", "1e19", "123456789012345678901234567890"}
+
+func c01NumberBoundaries(c *Ctx, idx int) {
+	y := c01NumB[idx]
+	xs := &ref.Arr{}
+	recs := &ref.Arr{}
+	for _, t := range c01NumB {
+		xs.E = append(xs.E, gen.Num(t))
+		o := ref.NewObj()
+		o.Set("id", gen.Num(t))
+		recs.E = append(recs.E, o)
+	}
+	doc := ref.NewObj()
+	doc.Set("xs", xs)
+	doc.Set("recs", recs)
+	doc.Set("y", gen.Num(y))
+	goDoc := ref.ToGo(doc, ref.JSONNumber)
+	for _, op := range []string{"==", "!=", "<", "<=", ">", ">="} {
+		for _, f := range []string{"xs[?@ " + op + " `" + y + "`]", "xs[?`" + y + "` " + op + " @]", "xs[?@ " + op + " $.y]", "recs[?id " + op + " `" + y + "`].id", "xs[*].[@ " + op + " `" + y + "`][]", "length(xs[?@ " + op + " `" + y + "`])"} {
+			m, _ := c.CheckModel("C01", f, doc, goDoc, CheckOpts{Compiled: op == "<", Features: map[string]string{"stream": "number-boundaries"}})
+			if IsNontrivialOutcome(m) {
+				c.Nontrivial(f)
+			}
+		}
+	}
+	for _, f := range []string{"xs[?@ == `" + y + "`] | [0] == y", "[`" + y + "`] == [y]", "{k: `" + y + "`} == {k: y}", "`" + y + "` == y && y == `" + y + "`", "xs[?@ > `" + y + "`] | length(@) == length(xs[?`" + y + "` < @])"} {
+		c.CheckModel("C01", f, doc, goDoc, CheckOpts{Features: map[string]string{"stream": "number-boundaries"}})
 	}
 }
